@@ -7,8 +7,8 @@ from common import Hang
 # How the code behaves today, in terms of TSM.tla's named deviations (the intended design = clause 5.4 has
 # RecvMult = 4, ResendSeg0OnNoWin = TRUE, IndexFromSeq = FALSE, IgnoreStaleAck = TRUE).  Conformance (Match) is
 # checked against the spec with these flags; the property monitors do not depend on them.
-INTENDED = dict(RecvMult=4, ResendSeg0OnNoWin="TRUE", IndexFromSeq="FALSE", IgnoreStaleAck="TRUE", FinalAckAnyInWindow="FALSE", IdleAcceptsAnySeq="FALSE")
-PINNED = dict(RecvMult=1, ResendSeg0OnNoWin="FALSE", IndexFromSeq="TRUE", IgnoreStaleAck="FALSE", FinalAckAnyInWindow="TRUE", IdleAcceptsAnySeq="TRUE")   # the tree as pinned (F2 F3 F4 F17 F24)
+INTENDED = dict(RecvMult=4, ResendSeg0OnNoWin="TRUE", IndexFromSeq="FALSE", IgnoreStaleAck="TRUE", FinalAckAnyInWindow="FALSE", IdleAcceptsAnySeq="FALSE", EchoClientAbort="FALSE")
+PINNED = dict(RecvMult=1, ResendSeg0OnNoWin="FALSE", IndexFromSeq="TRUE", IgnoreStaleAck="FALSE", FinalAckAnyInWindow="TRUE", IdleAcceptsAnySeq="TRUE", EchoClientAbort="TRUE")   # the tree as pinned (F2 F3 F4 F17 F24)
 CODE_FLAGS = dict(INTENDED)     # after the four fix: commits the code follows the intended design
 
 INVS = ["AtMostOneOutcome", "ExactlyOneAtQuiescence", "OutcomeKind", "NoResidue", "BoundedTime", "ResponseIntegrity",
